@@ -194,6 +194,11 @@ def grid_cases(ctx):
         verify = r.random() < 0.5
         scenario = r.choice(["intact", "delete", "delete", "stale", "newer-unrecoverable", "newer-unrecoverable", "corrupt", "far-stale", "far-stale",
                              "competing", "competing"])
+        # the refusal rules are exercised in every run, through both entry points
+        FORCED = [("newer-unrecoverable", "check_and_repair"), ("competing", "check_and_repair"), ("competing", "repair"), ("newer-unrecoverable", "repair")]
+        forced_via = None
+        if i < len(FORCED):
+            scenario, forced_via = FORCED[i]
         if scenario == "competing" and N < 2 * k:
             k, N = r.choice([(2, 4), (2, 5), (1, 3), (3, 6)])
             S = r.choice([N, N + 1])
@@ -291,13 +296,13 @@ def grid_cases(ctx):
                 ctx.oracle_fail("grid-health-differs", "check (verify=%s) says healthy=%s; shares on disk give %s (%r)" % (
                     verify, cr.is_healthy(), want_healthy, {str(v[0]): sorted(s) for v, s in byver.items()}), case=case, expected=want_healthy, observed=cr.is_healthy())
             # ---- repair ----
-            force = r.random() < 0.4
+            force = r.random() < 0.4 and forced_via is None
             case["force"] = force
             top_rec = recov[-1] if recov else None
             newer_unrec = [v for v, shs in byver.items() if len(shs) < k and (top_rec is None or v[0] > top_rec[0])]
             before = {(sh.server, sh.shnum): g.read_share(sh) for sh in g.find_shares(node.get_uri())}
             # entry point: the repairer directly, or the check-and-repair operation (which must not force)
-            via = "repair" if force else r.choice(["repair", "check_and_repair"])
+            via = "repair" if force else (forced_via or r.choice(["repair", "check_and_repair"]))
             case["via"] = via
             if via == "repair":
                 rep = g.run(node.repair(cr, force=force), outcome=True)
